@@ -12,6 +12,12 @@ from ..gen import siblings as SB
 from ..gen import symbols as GS
 from ..ref import linalg as L
 
+
+def _def_width(d):
+    """qubits of a custom gate definition, from its public matrix"""
+    return int(d.matrix.shape[0]).bit_length() - 1
+
+
 ID = "C06"
 LEVEL = "exploration"
 TECHNIQUE = (
@@ -1082,7 +1088,7 @@ def rand_ops(rng, n_ops, symbols, width, defs=None, nongate=0.0, wrapped=0.4):
             else:
                 ops.append(_W.ResetOperation(rng.randrange(width)))
             continue
-        fit = [d for d in (defs or []) if d._n_qubits <= width]
+        fit = [d for d in (defs or []) if _def_width(d) <= width]
         g = rand_base_gate(rng, symbols, rng.choice(["symbol", "expr", "any", "numeric"]),
                            fit if (fit and rng.random() < 0.5) else None, max_nq=min(2, width))
         if rng.random() < wrapped and g.num_qubits < width:
@@ -1155,7 +1161,7 @@ def sibling_circuit(rng, symbols, max_ops=6):
     if rng.random() < 0.2:  # two definitions under one name (a circuit holding both cannot be serialised, but binds)
         d1 = rand_def(rng, "Foo")
         order = tuple(d1.params_ordering)
-        d2 = rand_def(rng, "Foo", d1._n_qubits, len(order), tuple(reversed(order)) if rng.random() < 0.5 else order)
+        d2 = rand_def(rng, "Foo", _def_width(d1), len(order), tuple(reversed(order)) if rng.random() < 0.5 else order)
         defs = [d1, d2]
     ops = SB.sibling_ops(rng, width, shared, rng.randint(2, max_ops), defs)
     for _ in range(rng.choice([0, 0, 1, 2])):
